@@ -144,7 +144,9 @@ impl<'a> Packet<'a> {
         offset: &mut usize,
         items_count: u16,
     ) -> crate::Result<Vec<T>> {
-        let mut section_items = Vec::with_capacity(items_count as usize);
+        // every entry takes at least 5 bytes, do not trust the header count for the allocation
+        let remaining = data.len().saturating_sub(*offset);
+        let mut section_items = Vec::with_capacity((items_count as usize).min(remaining / 5));
 
         for _ in 0..items_count {
             section_items.push(T::parse(data, offset)?);
